@@ -17,6 +17,7 @@ Result(c) == CASE c.op = "setd" -> SetViaD(c.pre, c.x, c.v)
                [] c.op = "del"  -> DelLocal(c.pre, c.x)
                [] c.op = "swap" -> Swap(c.pre, c.p)
                [] c.op = "setp0" -> SetOnStranger(c.pre, c.x, c.v)
+               [] c.op = "setsx" -> SetViaSx(c.pre)
 Clauses(c) ==
   LET r == Result(c)
       errd == c.exc # ""
@@ -25,6 +26,7 @@ Clauses(c) ==
   IN (IF StEq(c.post, r.st) THEN {} ELSE {"C11-state"})
      \cup (IF (r.exc = "") = ~errd /\ (r.exc = "TraitError" => c.exc = "TraitError") THEN {} ELSE {"C11-outcome"})
      \cup (IF badread = {} THEN {} ELSE {"C11-read-does-not-mirror-target"})
+     \cup (IF c.sxleak = 0 /\ c.readsx = -1 THEN {} ELSE {"C11-undeclared-name-of-strict-delegate-written-or-readable"})
      \cup (IF \E q \in {"q", "q2", "q3"} : c.readq[q] # ReadQ(c.post, q) THEN {"C11-chain-read"} ELSE {})
      \* notifications of the handler on D.x: as specified for assignments; open for swap / del
      \cup (IF c.op \in {"setd", "setp", "setp0"} /\ c.calls # r.calls THEN {"C11-notification"} ELSE {})
